@@ -5,7 +5,9 @@
 impl<'a, T> MutexGuard<'a, T> { pub uninterp spec fn view(&self) -> T; pub uninterp spec fn of(&self) -> &'a Mutex<T>; }
 impl<T> Mutex<T> {
     pub uninterp spec fn inv(&self, v: T) -> bool;
-    #[verifier::external_body] pub fn lock(&self) -> (g: MutexGuard<'_, T>) ensures g.of() == self, self.inv(g@) { unimplemented!() }
+    /// issued fact: `v` is a value this thread saw under the lock during the current call
+    pub uninterp spec fn observed(&self, v: T) -> bool;
+    #[verifier::external_body] pub fn lock(&self) -> (g: MutexGuard<'_, T>) ensures g.of() == self, self.inv(g@), self.observed(g@) { unimplemented!() }
 }
 impl<'a, T> Deref for MutexGuard<'a, T> { type Target = T; #[verifier::external_body] fn deref(&self) -> (r: &T) ensures *r == self@ { unimplemented!() } }
 impl<'a, T> DerefMut for MutexGuard<'a, T> { #[verifier::external_body] fn deref_mut(&mut self) -> (r: &mut T) ensures *r == old(self)@, *final(r) == final(self)@, final(self).of() == old(self).of() { unimplemented!() } }
